@@ -19,7 +19,7 @@ P = {
          "FIR iteration order (A-hashiter), BTreeSet order (A-btree) and the HashMap entry API inside FirBuilder::add_ssrc (A-entry) are assumed (bounded NACK / FIR families stand in); rfc.rs itself is the oracle."),
  "C08": ("`parse is Ok ==> framed(...)` with count-dependent body bounds per type, header accessors equal the RFC header functions; generic helper proved for all P.",
          "third-party P must have MIN_PACKET_LEN >= 4 and VERSION == 2 (precondition of the public helper)."),
- "C09": ("Every accessor's result equals the RFC field function of the input bytes (big-endian values, sub-ranges at RFC offsets); must-accept direction via `accept <==> *_ok`.",
+ "C09": ("Every accessor's result equals the RFC field function of the input bytes (big-endian values, sub-ranges at RFC offsets); must-accept direction as `T_wellformed(s) ==> parse is Ok` (rfc::wellformed: framed, RFC padding, announced content in front of the padding trailer); the broader framed ==> accept clauses are support only.",
          "The address half of 'sub-slice of the caller's buffer' is not expressible in Verus' value model of slices (content/offset half is proved; lifetimes give the rest)."),
  "C10": ("Three-valued RFC 3550 contract on SdesChunk::parse / Sdes::parse: RFC-well-formed chunks are accepted with exactly their tokens and encoded length, "
          "listed malformations are rejected, anything accepted is the tokenisation of the bytes.", "—"),
@@ -30,7 +30,7 @@ P = {
          "padding accessor equality; lemmas per type in lemmas.rs.", "—"),
  "C14": ("CompoundBuilder proved over the dyn trait contract only: accepts iff every member valid and no non-last padding, size = sum, bytes = concatenation.",
          "third-party members are assumed to satisfy the trait contract; sum of member sizes fits usize (A-lang)."),
- "C15": ("parse_fci gate (kind and format) and `FCI parser sees fb_fci(bytes)`; NACK/FIR/SLI iterator `next` contracts against recursive RFC enumerations; RPSI/PLI accessors.",
+ "C15": ("parse_fci gate (kind and format) and `FCI parser sees fb_fci(bytes)`; NACK/FIR/SLI iterator `next` contracts against recursive RFC enumerations; RPSI/PLI accessors; RPSI accept ==> rpsi_ok, PLI accept ==> empty (must-accept of well-formed FCI belongs to C05; exact outcomes are support).",
          "the two bool-operator impls of FciFeedbackPacketType are external_body shells whose bodies are verified through verbatim inherent copies (rule R24); `&` / `|` on bool are conjunction / disjunction (A-bitops, closed by the complete Kani proof fci_gate in the thorough tier)."),
  "C16": ("`calculate_size is Ok <==> representable(config)` and `Err(e) ==> e names a violated rule with the offending value` per builder.",
          "total size > 65536 words is a recorded known finding (carve-out on the total-size clause)."),
@@ -50,7 +50,7 @@ P = {
  "C04": ("BYE and APP round trips as verified build-then-parse programs plus image lemmas (sources, reason present iff configured, name zero-filled, data, padding).",
          "APP payloads above the 65536-word limit are excluded (known finding D12)."),
  "C05": ("Feedback header round trip (lemma_fb_image) and FCI round trips for FIR, SLI, RPSI, PLI as verified build-then-parse programs "
-         "(borrowed FCI builder -> feedback builder -> bytes -> parse -> parse_fci -> iterator start state whose RFC enumeration equals the configured entries), and the same for generic NACK.",
+         "(borrowed FCI builder -> feedback builder -> bytes -> parse -> parse_fci -> iterator start state whose RFC enumeration equals the configured entries), and the same for generic NACK. Well-formed control information (FciParser::fci_wellformed) is accepted by every FCI parser and by parse_fci.",
          "NACK: lemma_roundtrip_nack (RFC 4585 decoder after the greedy run-length image is the identity on strictly increasing lists) and vp_roundtrip_nack are proved; assumed are A-btree / A-count (bounded NACK family stands in). FIR entry order is the map's iteration order (A-hashiter)."),
 }
 CLAIMED = ["C01", "C02", "C03", "C04", "C05", "C06", "C07", "C08", "C09", "C10", "C11", "C12", "C13", "C14", "C15", "C16", "C17", "C18", "C19", "C20"]
